@@ -1,16 +1,16 @@
 CONSTANTS
-  Clients <- MCClients
-  Addr <- MCAddr
-  SentBits = {0, 16, 24, 32}
-  Scopes = {0, 8, 20, 24, 32}
-  FwdMax = 24
-  Floor = 24
-  Enabled = FALSE
+  Clients <- AudFamClients
+  Addr <- AudAddr
+  SentBits = {0, 32, 56, 64}
+  Scopes = {0, 24, 48, 56, 64}
+  FwdMax = 0
+  Floor = 0
+  Enabled = TRUE
   MaxSteps = 6
-  Fwd6Max = 56
-  Floor6 = 48
+  Fwd6Max = 0
+  Floor6 = 0
   Allow = {}
-  Mapped = {}
+  Mapped = {10}
   CDs = {FALSE}
   UpCd = {"echo"}
   Dnssec = FALSE
@@ -19,5 +19,4 @@ INIT Init
 NEXT Next
 
 INVARIANTS TypeOK EcsLeavesOnlyIfAllowed NeverTooSpecific
-
 CHECK_DEADLOCK FALSE
